@@ -356,7 +356,7 @@ struct StaticChunking {
 inline StaticChunking staticChunkSize(ssize_t items, ssize_t chunks) {
   assert(chunks > 0);
   StaticChunking chunking;
-  chunking.ceilChunkSize = (items + chunks - 1) / chunks;
+  chunking.ceilChunkSize = (items + (chunks - 1)) / chunks;
   ssize_t numLeft = chunking.ceilChunkSize * chunks - items;
   chunking.transitionTaskIndex = chunks - numLeft;
   return chunking;
@@ -378,7 +378,7 @@ inline StaticChunking staticChunkSizeGranular(ssize_t items, ssize_t chunks, uin
   StaticChunking chunking;
   // Items measured in "granularity units".
   ssize_t gUnits = items / static_cast<ssize_t>(granularity);
-  ssize_t ceilG = (gUnits + chunks - 1) / chunks;
+  ssize_t ceilG = (gUnits + (chunks - 1)) / chunks;
   ssize_t numLeft = ceilG * chunks - gUnits;
   chunking.ceilChunkSize = ceilG * static_cast<ssize_t>(granularity);
   chunking.transitionTaskIndex = chunks - numLeft;
